@@ -3,8 +3,10 @@
 Programs are emitted as miasm assembler text (assembled at check time with
 miasm's own assembler).  Inputs are either whole registers ("reg"), a byte
 buffer addressed through a concrete pointer register ("mem") or arguments on
-the stack ("stack").  Memory is only ever addressed through concrete pointers
-with constant displacements (table-free), every loop has a trip count <= 4.
+the stack ("stack").  Memory is addressed through concrete pointers with constant
+displacements, except for lookups in small constant tables (own data page)
+whose index is input-derived and masked to the table size; every loop has a
+trip count <= 4.
 
 The generator keeps a rough syntactic taint (which register families may hold
 input-derived data) so that most conditions really depend on the input.
@@ -16,6 +18,8 @@ CODE_ADDR = 0x40000
 BUF_ADDR = 0x20000
 SCRATCH_ADDR = 0x30000
 SCRATCH_LEN = 0x40
+TABLE_ADDR = 0x50000        # constant lookup tables (never written, never symbolized)
+TABLE_LEN = 0x40
 
 FAMS32 = ["A", "B", "C", "D", "SI", "DI"]
 FAMS64 = FAMS32 + ["R8", "R9", "R10"]
@@ -69,6 +73,8 @@ class ProgGen(object):
         self.nargs = 0
         self.sym_fams = []
         self.buf_written = set()
+        self.table = [rng.getrandbits(8) for _ in range(TABLE_LEN)]
+        self.table_rate = 0.2
 
     # ---- helpers
     def k(self, name):
@@ -537,6 +543,9 @@ class ProgGen(object):
         rng = self.rng
         r = rng.random()
         ccs = CONDS if allow_parity else [c for c in CONDS if c not in ("PE", "NP")]
+        if not force_mem and self.taint and rng.random() < self.table_rate:
+            self.cond_table(target)
+            return
         if self.mode == "mem" and (force_mem or r < (0.3 if self.buf_written else 0.15)):
             size = rng.choice([8, 8, 16, 32])
             if size // 8 > self.buf_len:
@@ -604,6 +613,62 @@ class ProgGen(object):
             cc = rng.choice(["B", "AE"])
             self.k("cond:bt")
         self.emit("J%s %s" % (cc, target))
+        self.k("jcc:" + cc.lower())
+
+    def cond_table(self, target):
+        """branch on a value looked up in a constant table through an input-derived, masked index:
+        the address of the deciding read is symbolic.  The compared constant sits in the last / first /
+        a middle cell of the reachable range, or nowhere in it (then no input may be produced)."""
+        rng = self.rng
+        dword = rng.random() < 0.3
+        n = 4 if dword else rng.choice([4, 8, 16, 16])
+        esz = 4 if dword else 1
+        toff = rng.choice([o for o in (0, 16, 32, 48, 5, 21) if o + n * esz <= TABLE_LEN])
+        src = self.pick_src(self.bits, 0.98)
+        fams = [f for f in self.avail(self.bits)]
+        idx = rng.choice(fams)
+        val = rng.choice(fams)
+        iname = regname(idx, self.bits)
+        if idx != src:
+            if rng.random() < 0.3 and src in BYTE_FAMS:
+                self.emit("MOVZX %s, %s" % (regname(idx, 32), regname(src, 8)))
+            else:
+                self.emit("MOV %s, %s" % (iname, regname(src, self.bits)))
+        r = rng.random()
+        if r < 0.2:
+            self.emit("SHR %s, 0x%x" % (iname, rng.choice([1, 4, 8])))
+        elif r < 0.4:
+            self.emit("ADD %s, 0x%x" % (iname, rng.choice([1, 3, 0x7f])))
+        self.emit("AND %s, 0x%x" % (iname, n - 1))
+        base = TABLE_ADDR + toff
+        if dword:
+            self.emit("MOV %s, DWORD PTR [%s*0x4+0x%x]" % (regname(val, 32), iname, base))
+            cells = [sum(self.table[toff + 4 * i + j] << (8 * j) for j in range(4)) for i in range(n)]
+            width = 32
+        else:
+            op = rng.choice(["MOVZX", "MOVZX", "MOVSX"])
+            self.emit("%s %s, BYTE PTR [%s+0x%x]" % (op, regname(val, 32), iname, base))
+            cells = [self.table[toff + i] for i in range(n)]
+            if op == "MOVSX":
+                cells = [c | (0xffffff00 if c & 0x80 else 0) for c in cells]
+            width = 8
+        self.taint.update((idx, val))
+        where = rng.choice(["last", "last", "first", "middle", "absent", "absent"])
+        if where == "last":
+            tgt = cells[-1]
+        elif where == "first":
+            tgt = cells[0]
+        elif where == "middle":
+            tgt = cells[rng.randrange(1, n - 1)]
+        else:
+            tgt = rng.getrandbits(32 if dword else 8)
+            while tgt in cells:
+                tgt = rng.getrandbits(32 if dword else 8)
+        # how many cells hold the value (a value only present in one cell pins the index)
+        self.emit("CMP %s, 0x%x" % (regname(val, 32), tgt))
+        cc = rng.choice(["Z", "NZ", "Z", "NZ", "B", "AE"]) if where != "absent" else rng.choice(["Z", "NZ"])
+        self.emit("J%s %s" % (cc, target))
+        self.k("cond:table_%s_%s" % ("dword" if dword else "byte", where))
         self.k("jcc:" + cc.lower())
 
     # ---- structure
@@ -720,7 +785,7 @@ def make_program(rng, bits, mode, bufwrite=False):
     init_regs[regname("BP", bits)] = SCRATCH_ADDR
     prog = dict(bits=bits, mode=mode, text=text, init_regs=init_regs,
                 sym_regs=[regname(f, bits) for f in g.sym_fams], buf_len=g.buf_len, nargs=g.nargs,
-                scratch=[rng.getrandbits(8) for _ in range(SCRATCH_LEN)], kinds=g.kinds,
+                scratch=[rng.getrandbits(8) for _ in range(SCRATCH_LEN)], table=g.table, kinds=g.kinds,
                 bufwrite=bool(bufwrite and any(k.startswith("bufwrite") for k in g.kinds)))
     # initial input
     inp = {}
